@@ -24,7 +24,7 @@ def judge_pass(ctx, src, cases, worker, kind, chunk=600, env=None, tag=""):
         nobs += len(rec.get("routes", []))
     ctx.evaluations += nobs
     ctx.log("Act T: TLC judges %d records (%d observations)" % (len(records), nobs))
-    res = tlc.validate_traces("DTWTrace", "DTWTrace.cfg", records, chunk=chunk, canary_fields=["obs", "d", "lb", "base"])
+    res = tlc.validate_traces("DTWTrace", "DTWTrace.cfg", records, chunk=chunk, canary_fields=["obs", "d", "lb", "base", "starts"])
     ctx.add_tv(res)
     if res.get("notes"):
         ctx.extra["reference_deviates_from_spec"] = ctx.extra.get("reference_deviates_from_spec", 0) + len(res["notes"])
@@ -48,6 +48,7 @@ def run_records_family(ctx, cases, worker, kind, mc_cfgs=(), rule="", mc_module=
 CRASH = {
     "wps": {"routes": ["PROCESS-CRASH"], "mat": [[]], "d": [-5], "neg": [False], "slices": []},
     "path": {"routes": ["PROCESS-CRASH"], "paths": [[]], "d": [-5]},
+    "pathto": {"routes": ["PROCESS-CRASH"], "paths": [[]], "starts": [[1, 1]]},
     "dist": {"routes": ["PROCESS-CRASH"], "obs": [-5]},
     "agree": {"routes": ["PROCESS-CRASH", "PROCESS-CRASH"], "obs": [-5, -6]},
 }
